@@ -404,6 +404,11 @@ func (c *clientHello) parseExtensions() error {
 					return fmt.Errorf("%w: ech ext payload", ErrDecodeError)
 				}
 				c.echExt.Payload = slices.Clone(v)
+				// Nothing may follow the payload: the AAD is built from
+				// the fields above.
+				if !data.Empty() {
+					return fmt.Errorf("%w: ech ext trailing data", ErrDecodeError)
+				}
 			}
 		}
 	}
